@@ -941,6 +941,180 @@ def _():
     return ext_eq_s(T.relabel(z3.Store(R, k, True), z3.Store(lv, k, r)), z3.Store(T.relabel(R, lv), k, r), T.Key2)
 
 
+@proof('wordx', 'app-assoc')
+def _(): return word_ind(lambda w: ForAll([u_, v_], T.app(T.app(u_, v_), w) == T.app(u_, T.app(v_, w))))
+
+
+_X_ = Const('X_', T.Lang); _Y_ = Const('Y_', T.Lang)
+
+
+@proof('gnfa', 'mem-cat-app')
+def _():
+    u, v = Consts('u_ v_', Word)
+    k = T.wlen(u)
+    return [('witness', [T.lmem(u, _X_), T.lmem(v, _Y_)], And(0 <= k, k <= T.wlen(T.app(u, v)), T.lmem(T.take(k, T.app(u, v)), _X_), T.lmem(T.drop(k, T.app(u, v)), _Y_))),
+            ('intro', [And(0 <= k, k <= T.wlen(T.app(u, v)), T.lmem(T.take(k, T.app(u, v)), _X_), T.lmem(T.drop(k, T.app(u, v)), _Y_))], T.lmem(T.app(u, v), T.lcat(_X_, _Y_)))]
+@proof('gnfa', 'mem-cat-split')
+def _():
+    w, u, v = Consts('w_ u_ v_', Word); k = Const('k_', z3.IntSort())
+    return [('witness', [0 <= k, k <= T.wlen(w), T.lmem(T.take(k, w), _X_), T.lmem(T.drop(k, w), _Y_)], And(w == T.app(T.take(k, w), T.drop(k, w)), T.lmem(T.take(k, w), _X_), T.lmem(T.drop(k, w), _Y_))),
+            ('elim', [T.lmem(w, T.lcat(_X_, _Y_)), ForAll([k], Implies(And(0 <= k, k <= T.wlen(w), T.lmem(T.take(k, w), _X_), T.lmem(T.drop(k, w), _Y_)),
+                                                                 Exists([u, v], And(w == T.app(u, v), T.lmem(u, _X_), T.lmem(v, _Y_)))))], Exists([u, v], And(w == T.app(u, v), T.lmem(u, _X_), T.lmem(v, _Y_)))),
+            ('gen', [0 <= k, k <= T.wlen(w), T.lmem(T.take(k, w), _X_), T.lmem(T.drop(k, w), _Y_)], Exists([u, v], And(w == T.app(u, v), T.lmem(u, _X_), T.lmem(v, _Y_))))]
+@proof('gnfa', 'star-nil')
+def _(): return [('unfold', [], T.lmem(Word.nil, T.lstar(_X_)))]
+@proof('gnfa', 'star-cons')
+def _():
+    u, v = Consts('u_ v_', Word); k = T.wlen(u); w = T.app(u, v)
+    return [('nil-case', [u == Word.nil, T.lmem(v, T.lstar(_X_))], T.lmem(w, T.lstar(_X_))),
+            ('witness', [u != Word.nil, T.lmem(u, _X_), T.lmem(v, T.lstar(_X_))], And(1 <= k, k <= T.wlen(w), T.lmem(T.take(k, w), _X_), T.lmem(T.drop(k, w), T.lstar(_X_)))),
+            ('cons-case', [And(1 <= k, k <= T.wlen(w), T.lmem(T.take(k, w), _X_), T.lmem(T.drop(k, w), T.lstar(_X_)))], T.lmem(w, T.lstar(_X_))),
+            ('both', [Implies(u == Word.nil, T.lmem(w, T.lstar(_X_))), Implies(u != Word.nil, T.lmem(w, T.lstar(_X_)))], T.lmem(w, T.lstar(_X_)))]
+
+
+def _g_consts():
+    return Const('Lb_', T.LabA), Const('Q_', T.SetA), Const('qa_', Atom)
+
+
+@proof('gnfa', 'GAcc-star')
+def _():
+    Lb, Q, qa = _g_consts(); r = Const('r_', Atom); u, v, p, s = Consts('u_ v_ p_ s_', Word); k = Const('k_', z3.IntSort()); n = Const('n_', z3.IntSort())
+    B = T.Lof(Select(Lb, T.mkKey2(r, r))); G = lambda w: T.GAcc(Lb, Q, qa, r, w)
+    hyp = [Select(Q, r), G(v)]
+    # induction on the length of u: the first block of u (non-empty, in B) is one step from r to r, the rest is shorter
+    P = lambda n: ForAll([u], Implies(And(T.wlen(u) <= n, T.lmem(u, T.lstar(B))), G(T.app(u, v))))
+    base = ('base', hyp, P(z3.IntVal(0)))
+    split = ('step-split', [T.lmem(u, T.lstar(B)), u != Word.nil], Exists([k], And(1 <= k, k <= T.wlen(u), T.lmem(T.take(k, u), B), T.lmem(T.drop(k, u), T.lstar(B)))))
+    one = ('step-one', hyp + [P(n), 0 <= n, T.wlen(u) <= n + 1, 1 <= k, k <= T.wlen(u), T.lmem(T.take(k, u), B), T.lmem(T.drop(k, u), T.lstar(B))], G(T.app(u, v)))
+    stp = ('step', hyp + [P(n), 0 <= n, ForAll([u], Implies(And(T.lmem(u, T.lstar(B)), u != Word.nil), Exists([k], And(1 <= k, k <= T.wlen(u), T.lmem(T.take(k, u), B), T.lmem(T.drop(k, u), T.lstar(B)))))),
+                 ForAll([u, k], Implies(And(T.wlen(u) <= n + 1, 1 <= k, k <= T.wlen(u), T.lmem(T.take(k, u), B), T.lmem(T.drop(k, u), T.lstar(B))), G(T.app(u, v))))], P(n + 1))
+    fin = ('final', [ForAll([n], Implies(n >= 0, P(n))), T.lmem(u, T.lstar(B))], G(T.app(u, v)))
+    return [base, split, one, stp, fin]
+
+
+@proof('gnfa', 'rip-sim')
+def _():
+    Lb, Q, qa = _g_consts(); Lb2 = Const('Lb2_', T.LabA); Q2 = Const('Q2_', T.SetA); r, qs = Consts('r_ qs_', Atom)
+    x, y, y2 = Consts('x_ y_ y2_', Atom); u, v, w, u1, u2, u3, v2 = Consts('u_ v_ w_ u1_ u2_ u3_ v2_', Word)
+    st = T.rip_pred(Lb, Lb2, Q, Q2, r, qs, qa)
+    lab = lambda L_, a, b: T.Lof(Select(L_, T.mkKey2(a, b)))
+    G1 = lambda a, w_: T.GAcc(Lb, Q, qa, a, w_); G2 = lambda a, w_: T.GAcc(Lb2, Q2, qa, a, w_)
+    Bs = T.lstar(lab(Lb, r, r))
+    out = []
+    # ---------------- G2 within G1: every edge of the ripped automaton is an edge or a detour through r of the original one
+    viaR = lambda a, b, u_: Exists([u1, u2, u3], And(u_ == T.app(u1, T.app(u2, u3)), T.lmem(u1, lab(Lb, a, r)), T.lmem(u2, Bs), T.lmem(u3, lab(Lb, r, b))))
+    e1 = ('edge-fwd', [st, Select(Q2, y), T.lmem(u, lab(Lb2, x, y))], Or(T.lmem(u, lab(Lb, x, y)), viaR(x, y, u)))
+    dA = ('detour-1', [st, Select(Q2, y), G1(y, v), T.lmem(u3, lab(Lb, r, y))], And(Select(Q, r), G1(r, T.app(u3, v))))
+    dB = ('detour-2', [Select(Q, r), G1(r, T.app(u3, v)), T.lmem(u2, Bs)], G1(r, T.app(u2, T.app(u3, v))))
+    dC = ('detour-3', [Select(Q, r), G1(r, T.app(u2, T.app(u3, v))), T.lmem(u1, lab(Lb, x, r))], G1(x, T.app(u1, T.app(u2, T.app(u3, v)))))
+    dD = ('detour-4', [u == T.app(u1, T.app(u2, u3))], T.app(u, v) == T.app(u1, T.app(u2, T.app(u3, v))))
+    d1 = ('detour', [dA[2], Implies(And(Select(Q, r), G1(r, T.app(u3, v)), T.lmem(u2, Bs)), dB[2]), Implies(And(Select(Q, r), G1(r, T.app(u2, T.app(u3, v))), T.lmem(u1, lab(Lb, x, r))), dC[2]), dD[2],
+                     T.lmem(u1, lab(Lb, x, r)), T.lmem(u2, Bs)], G1(x, T.app(u, v)))
+    c1 = ('closed-fwd', [st, Select(Q2, y), T.lmem(u, lab(Lb2, x, y)), G1(y, v), Or(T.lmem(u, lab(Lb, x, y)), viaR(x, y, u)),
+                         ForAll([u1, u2, u3], Implies(And(u == T.app(u1, T.app(u2, u3)), T.lmem(u1, lab(Lb, x, r)), T.lmem(u2, Bs), T.lmem(u3, lab(Lb, r, y))), G1(x, T.app(u, v))))], G1(x, T.app(u, v)))
+    T1 = Const('T1_', T.GRel)
+    defT1 = ForAll([x, w], Select(T1, T.mkXW(x, w)) == G1(x, w))
+    l1 = ('least-fwd', [defT1, T.GAcc_least(Lb2, Q2, qa, T1),
+                        ForAll([x, y, u, v], Implies(And(Select(Q2, y), T.lmem(u, lab(Lb2, x, y)), G1(y, v)), G1(x, T.app(u, v))))], ForAll([x, w], Implies(G2(x, w), G1(x, w))))
+    out += [e1, dA, dB, dC, dD, d1, c1, l1]
+    # ---------------- G1 within G2 (for states other than r); from r: some rounds through r, one edge out, then on in the ripped automaton
+    fromR = lambda w_: Exists([u2, u3, v2, y2], And(w_ == T.app(u2, T.app(u3, v2)), T.lmem(u2, Bs), Select(Q2, y2), T.lmem(u3, lab(Lb, r, y2)), G2(y2, v2)))
+    Tp = lambda a, w_: z3.If(a == r, fromR(w_), Implies(Select(Q2, a), G2(a, w_)))
+    hy = [st, Select(Q, y), T.lmem(u, lab(Lb, x, y)), Tp(y, v)]
+    k1a = ('edge-bwd', [st, Select(Q2, x), Select(Q2, y), T.lmem(u, lab(Lb, x, y))], T.lmem(u, lab(Lb2, x, y)))
+    k1b = ('case-other-other-1', hy + [x != r, y != r, Select(Q2, x)], And(Select(Q2, y), G2(y, v)))
+    k1 = ('case-other-other', [k1b[2], T.lmem(u, lab(Lb2, x, y))], G2(x, T.app(u, v)))
+    k2a = ('case-other-r-1', [st, x != r, Select(Q2, x), T.lmem(u, lab(Lb, x, r)), T.lmem(u2, Bs), Select(Q2, y2), T.lmem(u3, lab(Lb, r, y2))], T.lmem(T.app(u, T.app(u2, u3)), lab(Lb2, x, y2)))
+    k2 = ('case-other-r', [st, x != r, Select(Q2, x), T.lmem(u, lab(Lb, x, r)), v == T.app(u2, T.app(u3, v2)), T.lmem(u2, Bs), Select(Q2, y2), T.lmem(u3, lab(Lb, r, y2)), G2(y2, v2),
+                           T.lmem(T.app(u, T.app(u2, u3)), lab(Lb2, x, y2))], G2(x, T.app(u, v)))
+    k3 = ('case-r-other', hy + [x == r, y != r], fromR(T.app(u, v)))
+    k4 = ('case-r-r', [st, T.lmem(u, lab(Lb, r, r)), v == T.app(u2, T.app(u3, v2)), T.lmem(u2, Bs), Select(Q2, y2), T.lmem(u3, lab(Lb, r, y2)), G2(y2, v2)],
+          And(T.app(u, v) == T.app(T.app(u, u2), T.app(u3, v2)), T.lmem(T.app(u, u2), Bs)))
+    T2 = Const('T2_', T.GRel)
+    defT2 = ForAll([x, w], Select(T2, T.mkXW(x, w)) == Tp(x, w))
+    cb = ('closed-bwd', [st, Select(Q, y), T.lmem(u, lab(Lb, x, y)), Tp(y, v),
+                         Implies(And(x != r, y != r, Select(Q2, x)), And(Select(Q2, y), G2(y, v))), Implies(And(Select(Q2, x), Select(Q2, y)), T.lmem(u, lab(Lb2, x, y))),
+                         Implies(And(Select(Q2, y), G2(y, v), T.lmem(u, lab(Lb2, x, y))), G2(x, T.app(u, v))),
+                         ForAll([u2, u3, v2, y2], Implies(And(x != r, Select(Q2, x), y == r, v == T.app(u2, T.app(u3, v2)), T.lmem(u2, Bs), Select(Q2, y2), T.lmem(u3, lab(Lb, r, y2)), G2(y2, v2)), G2(x, T.app(u, v)))),
+                         Implies(And(x == r, y != r), fromR(T.app(u, v))),
+                         ForAll([u2, u3, v2, y2], Implies(And(x == r, y == r, v == T.app(u2, T.app(u3, v2)), T.lmem(u2, Bs), Select(Q2, y2), T.lmem(u3, lab(Lb, r, y2)), G2(y2, v2)),
+                                                          And(T.app(u, v) == T.app(T.app(u, u2), T.app(u3, v2)), T.lmem(T.app(u, u2), Bs))))], Tp(x, T.app(u, v)))
+    l2 = ('least-bwd', [st, defT2, T.GAcc_least(Lb, Q, qa, T2), ForAll([x, y, u, v], Implies(And(Select(Q, y), T.lmem(u, lab(Lb, x, y)), Tp(y, v)), Tp(x, T.app(u, v))))],
+          ForAll([x, w], Implies(And(G1(x, w), Select(Q2, x)), G2(x, w))))
+    fin = ('final', [ForAll([x, w], Implies(G2(x, w), G1(x, w))), ForAll([x, w], Implies(And(G1(x, w), Select(Q2, x)), G2(x, w))), Select(Q2, x)], G2(x, w) == G1(x, w))
+    out += [k1a, k1b, k1, k2a, k2, k3, k4, cb, l2, fin]
+    return out
+
+
+@proof('gnfa', 'gnfa-two-state')
+def _():
+    Lb, Q, qa = _g_consts(); qs = Const('qs_', Atom); x, y = Consts('x_ y_', Atom); u, v, w = Consts('u_ v_ w_', Word)
+    lab = lambda a, b: T.Lof(Select(Lb, T.mkKey2(a, b)))
+    hyp = [qs != qa, ForAll([x], Select(Q, x) == Or(x == qs, x == qa)), ForAll([y], lab(qa, y) == T.lzero), ForAll([x], lab(x, qs) == T.lzero)]
+    G = lambda a, w_: T.GAcc(Lb, Q, qa, a, w_)
+    bs = ('base', [], G(qa, Word.nil))
+    bwd = ('bwd', hyp + [G(qa, Word.nil), T.lmem(w, lab(qs, qa))], G(qs, T.app(w, Word.nil)))
+    Tp = lambda a, w_: And(Implies(a == qa, w_ == Word.nil), Implies(a == qs, T.lmem(w_, lab(qs, qa))))
+    Tt = Const('T_', T.GRel)
+    defT = ForAll([x, w], Select(Tt, T.mkXW(x, w)) == Tp(x, w))
+    cl = ('closed', hyp + [Select(Q, y), T.lmem(u, lab(x, y)), Tp(y, v)], Tp(x, T.app(u, v)))
+    fwd = ('fwd', hyp + [defT, T.GAcc_least(Lb, Q, qa, Tt), ForAll([x, y, u, v], Implies(And(Select(Q, y), T.lmem(u, lab(x, y)), Tp(y, v)), Tp(x, T.app(u, v)))), G(qs, w)], T.lmem(w, lab(qs, qa)))
+    return [bs, bwd, cl, fwd, ('final', [Implies(T.lmem(w, lab(qs, qa)), G(qs, T.app(w, Word.nil))), Implies(G(qs, w), T.lmem(w, lab(qs, qa)))], G(qs, w) == T.lmem(w, lab(qs, qa)))]
+
+
+@proof('wordx', 'over-app')
+def _():
+    S = Const('S0_', T.SetA)
+    return word_ind(lambda v: ForAll([u_], T.over(S, T.app(u_, v)) == And(T.over(S, u_), T.over(S, v))))
+@proof('wordx', 'word-uncons')
+def _():
+    a, b = Consts('a_ b_', Atom); v = Const('v_', Word)
+    P = lambda w: Implies(w != Word.nil, Exists([a, v], And(w == T.cons(a, v), T.wlen(v) == T.wlen(w) - 1)))
+    u = Const('u_', Word)
+    c1 = ('step-nil', [u == Word.nil], And(Word.snoc(u, b) == T.cons(b, Word.nil), T.wlen(Word.nil) == T.wlen(Word.snoc(u, b)) - 1))
+    c2 = ('step-cons', [u == T.cons(a, v), T.wlen(v) == T.wlen(u) - 1], And(Word.snoc(u, b) == T.cons(a, Word.snoc(v, b)), T.wlen(Word.snoc(v, b)) == T.wlen(Word.snoc(u, b)) - 1))
+    stp = ('step', [P(u), Implies(u == Word.nil, c1[2]), ForAll([a, v], Implies(And(u == T.cons(a, v), T.wlen(v) == T.wlen(u) - 1), c2[2]))], P(Word.snoc(u, b)))
+    return [('base', [], P(Word.nil)), c1, c2, stp]
+
+
+@proof('gnfadfa', 'gnfa-of-dfa-lang')
+def _():
+    D = SV(REC('DFA'), Const('D_', T._DFAs)); Lb, Q, qa = _g_consts(); qs = Const('qs_', Atom)
+    QD, Sg, Fz, d, q0 = rec_get(D, 'Q').z, rec_get(D, 'Sigma').z, rec_get(D, 'F').z, T.dfa_delta_val(D), rec_get(D, 'q0').z
+    x, y, a = Consts('x_ y_ a_', Atom); u, v, w = Consts('u_ v_ w_', Word); n = Const('n_', z3.IntSort())
+    st = T.gdfa_pred(D, Lb, Q, qs, qa)
+    G = lambda p_, w_: T.GAcc(Lb, Q, qa, p_, w_)
+    lab = lambda p_, q_: T.Lof(Select(Lb, T.mkKey2(p_, q_)))
+    ok = lambda p_, w_: And(T.over(Sg, w_), Select(Fz, T.dhat(d, p_, w_)))
+    # ---- every accepted word is accepted by the GNFA: induction on the length, peeling off the first letter
+    Pn = lambda n_: ForAll([x, w], Implies(And(T.wlen(w) <= n_, Select(QD, x), ok(x, w)), G(x, w)))
+    b0 = ('base-accept', [], G(qa, Word.nil))
+    b1 = ('base-edge', [st, G(qa, Word.nil), Select(QD, x), Select(Fz, x)], G(x, T.app(Word.nil, Word.nil)))
+    base = ('base', [st, ForAll([x], Implies(And(Select(QD, x), Select(Fz, x)), G(x, T.app(Word.nil, Word.nil))))], Pn(z3.IntVal(0)))
+    s1 = ('step-letter', [st, Pn(n), 0 <= n, Select(QD, x), w == T.cons(a, v), T.wlen(v) == T.wlen(w) - 1, T.wlen(w) <= n + 1, ok(x, w)],
+          And(Select(Sg, a), Select(QD, Select(d, T.mkKey2(x, a))), G(Select(d, T.mkKey2(x, a)), v), T.lmem(Word.snoc(Word.nil, a), lab(x, Select(d, T.mkKey2(x, a)))), Select(Q, Select(d, T.mkKey2(x, a)))))
+    s2 = ('step-edge', [w == T.cons(a, v), Select(Q, y), G(y, v), T.lmem(Word.snoc(Word.nil, a), lab(x, y))], G(x, w))
+    stp = ('step', [st, Pn(n), 0 <= n, ForAll([x], Implies(And(Select(QD, x), Select(Fz, x)), G(x, T.app(Word.nil, Word.nil)))),
+                    ForAll([x, w, a, v], Implies(And(Select(QD, x), w == T.cons(a, v), T.wlen(v) == T.wlen(w) - 1, T.wlen(w) <= n + 1, ok(x, w)), G(x, w)))], Pn(n + 1))
+    allx = ForAll([x, w], Implies(And(Select(QD, x), ok(x, w)), G(x, w)))
+    gen = ('all-lengths', [ForAll([n], Implies(n >= 0, Pn(n)))], allx)
+    fromstart = ('bwd-start', [st, allx, ok(q0, w)], G(qs, T.app(Word.nil, w)))
+    # ---- conversely: leastness
+    Tp = lambda p_, w_: And(Implies(Select(QD, p_), ok(p_, w_)), Implies(p_ == qa, w_ == Word.nil), Implies(p_ == qs, ok(q0, w_)))
+    Tt = Const('T_', T.GRel)
+    defT = ForAll([x, w], Select(Tt, T.mkXW(x, w)) == Tp(x, w))
+    hy = [st, Select(Q, y), T.lmem(u, lab(x, y)), Tp(y, v)]
+    c1 = ('closed-inner', hy + [Select(QD, x), Select(QD, y)], Tp(x, T.app(u, v)))
+    c2 = ('closed-accept', hy + [Select(QD, x), y == qa], Tp(x, T.app(u, v)))
+    c3 = ('closed-start', hy + [x == qs], Tp(x, T.app(u, v)))
+    c4 = ('closed-rest-impossible', hy + [Not(And(Select(QD, x), Select(QD, y))), Not(And(Select(QD, x), y == qa)), x != qs], z3.BoolVal(False))     # no such edge
+    cl = ('closed', [Implies(And(Select(QD, x), Select(QD, y)), Tp(x, T.app(u, v))), Implies(And(Select(QD, x), y == qa), Tp(x, T.app(u, v))), Implies(x == qs, Tp(x, T.app(u, v))),
+                     Not(And(Not(And(Select(QD, x), Select(QD, y))), Not(And(Select(QD, x), y == qa)), x != qs))], Tp(x, T.app(u, v)))
+    fwd = ('fwd', [st, defT, T.GAcc_least(Lb, Q, qa, Tt), ForAll([x, y, u, v], Implies(And(Select(Q, y), T.lmem(u, lab(x, y)), Tp(y, v)), Tp(x, T.app(u, v)))), G(qs, w)], ok(q0, w))
+    fin = ('final', [Implies(ok(q0, w), G(qs, T.app(Word.nil, w))), Implies(G(qs, w), ok(q0, w))], G(qs, w) == ok(q0, w))
+    return [b0, b1, base, s1, s2, stp, gen, fromstart, c1, c2, c3, c4, cl, fwd, fin]
+
+
 def int_ind(P, lo=0):
     """induction on an integer >= lo: P(lo) and (j >= lo and P(j)) => P(j+1)"""
     j = fresh_z('j', z3.IntSort())
@@ -965,7 +1139,7 @@ def prove_lemmas(theories, timeout=10):
     """-> list of (name, status, log); a lemma may use the def/lfp/assumed axioms of the selected theories and earlier lemmas"""
     from .smt import discharge
     obls = []
-    order = ['word', 'wordx', 'naming', 'dfa', 'nfa', 'dfax', 'nerode', 'quot', 'nfax', 'regexp', 'nfastar', 'tm', 'pda', 'pdax', 'cfg', 'iso', 'subset']
+    order = ['word', 'wordx', 'naming', 'dfa', 'nfa', 'dfax', 'nerode', 'quot', 'nfax', 'regexp', 'nfastar', 'gnfa', 'gnfadfa', 'tm', 'pda', 'pdax', 'cfg', 'iso', 'subset']
     ths = [t for t in order if t in theories] + [t for t in theories if t not in order]
     from .verify import DEPENDS
     def closure(t, out=None):
@@ -1025,6 +1199,7 @@ def lemma_canaries(theories, timeout=5):
     for (th, n), pf in PROOFS.items():
         if th not in theories: continue
         for (part, hyps, _goal) in pf():
+            if z3.is_false(_goal): continue          # a step that shows a case to be impossible: its hypotheses are meant to be inconsistent
             o = Obligation('canary', '%s/%s' % (n, part), 'lemma', list(avail) + hyps, z3.BoolVal(False))
             o.hyps = relevant_generated(o, []) + o.hyps; obls.append(o)
     discharge(obls, [], timeout=timeout, backends=('z3e', 'z3'))
